@@ -489,6 +489,14 @@ func F(a0 int) int {
 	return glog + a0
 }
 `},
+	{name: "array-copy-shares-nested-byte-arrays", fns: intFn, src: `
+func F(a0 int) int {
+	var bs [2][3]byte
+	cp := bs
+	cp[0][0] = byte(5 + a0)
+	return int(bs[0][0]) + int(cp[0][0])*10
+}
+`},
 	{name: "slice-of-constant-string", fns: intFn, src: `
 const prefix = "abc"
 
